@@ -42,7 +42,10 @@ class Rec:
 
 
 def strip_prefix(ns, s):
-    """Title with blanks, without the namespace prefix if one (name, alias, any case) is given."""
+    """Title with blanks, without the namespace prefix if one (name, alias, any case) is given.
+    Main namespace: its prefix is 'Main:' (only that exact spelling is handled here; see Model.find)."""
+    if ns == 0 and s.startswith("Main:"):
+        return s[5:]
     if ns:
         name, others = NS[ns]
         low = s.lower()
@@ -102,6 +105,10 @@ class Model:
                     if r is None and ucfirst(rest) != rest and (n, ucfirst(rest)) in store:
                         return SKIP
                     return r
+        if s.startswith("Main:"):
+            return store.get((0, s[5:]))
+        if low.startswith("main:"):
+            return SKIP
         return store.get((0, s))
 
     @classmethod
@@ -109,6 +116,9 @@ class Model:
         s = spelled.replace("_", " ")
         if ns is None:
             return cls.find_none(store, s)
+        if ns == 0 and not s.startswith("Main:") and s.lower().startswith("main:"):
+            # the statement makes the prefix case-insensitive, the pinned code knows only 'Main:' -> undetermined
+            return SKIP
         s = strip_prefix(ns, s)
         if not s:
             return None
